@@ -149,7 +149,7 @@ def check9 (cfg : Cfg) (evs : List Ev) : List String := runMon (step9 cfg) (fun 
 
 /-! ### C12 — EHLO advertises exactly what the configuration enables -/
 
-def natToDec (n : Nat) : Bytes := (toString n).toUTF8.toList
+def natToDec (n : Nat) : Bytes := (Nat.toDigits 10 n).map (fun c => UInt8.ofNat c.toNat)
 
 /-- the capability table: keyword lines in the order the server prints them -/
 def capsTable (cfg : Cfg) (tls : Bool) : List Bytes :=
